@@ -567,3 +567,139 @@ func equalGo(a, b reflect.Value) bool {
 	}
 	return false
 }
+
+// ---------------------------------------------------------------- dirty fillers and leaf diff
+
+func repb(b byte, n int) []byte {
+	out := make([]byte, n)
+	for i := range out {
+		out[i] = b
+	}
+	return out
+}
+
+// Dirty returns a value of the schema that leaves as much state as possible in a
+// decode destination: maximal integers, non-empty strings, non-nil pointers, lists
+// with several elements.  variant 0: widest values, 3-element lists; variant 1:
+// other byte patterns, 5-element lists, a long (60-byte) string.
+func (s *Schema) Dirty(variant int) *Item {
+	switch s.Kind {
+	case KUint:
+		if variant == 0 {
+			return S(repb(0xff, s.Bits/8))
+		}
+		return S([]byte{0x80})
+	case KBigInt:
+		if variant == 0 {
+			return S(repb(0xff, 33))
+		}
+		return S([]byte{0x01, 0x00})
+	case KBool:
+		return S([]byte{1})
+	case KBytes:
+		if variant == 0 {
+			return S([]byte{0xff, 0xfe, 0xfd})
+		}
+		return S(repb(0xab, 60))
+	case KByteArray:
+		if variant == 0 {
+			return S(repb(0xff, s.N))
+		}
+		return S(repb(0x80, s.N))
+	case KList:
+		it := L()
+		for i := 0; i < 3+2*variant; i++ {
+			it.Elems = append(it.Elems, s.Elem.Dirty(variant))
+		}
+		return it
+	case KArray:
+		it := L()
+		for i := 0; i < s.N; i++ {
+			it.Elems = append(it.Elems, s.Elem.Dirty(variant))
+		}
+		return it
+	case KStruct:
+		it := L()
+		for _, f := range s.Fields {
+			it.Elems = append(it.Elems, f.Dirty(variant))
+		}
+		if s.Tail != nil {
+			for i := 0; i < 2+2*variant; i++ {
+				it.Elems = append(it.Elems, s.Tail.Dirty(variant))
+			}
+		}
+		return it
+	case KOptPtr, KPtr:
+		return s.Elem.Dirty(variant)
+	case KRaw:
+		return L(S([]byte{1}), S([]byte{2, 3}))
+	}
+	return L(S([]byte{0xff, 0xff}), L(S([]byte{1}))) // KAny
+}
+
+// DiffLeaf walks two canonical encodings of values of the schema in parallel and
+// names the kind of the first place where they differ ("" if they are equal or
+// cannot be parsed).
+func (s *Schema) DiffLeaf(a, b []byte) string {
+	ia, ra := Parse(a)
+	ib, rb := Parse(b)
+	if ra != "" || rb != "" {
+		if s.Kind == KRaw {
+			return "raw"
+		}
+		return ""
+	}
+	return s.diff(ia, ib)
+}
+
+func (s *Schema) diff(a, b *Item) string {
+	if a.Equal(b) {
+		return ""
+	}
+	leaf := map[SKind]string{KUint: "uint", KBigInt: "bigint", KBool: "bool", KBytes: "bytes", KByteArray: "bytearray", KRaw: "raw", KAny: "any"}
+	if n, ok := leaf[s.Kind]; ok {
+		return n
+	}
+	if s.Kind == KOptPtr || s.Kind == KPtr {
+		emptyA := (a.IsList && len(a.Elems) == 0) || (!a.IsList && len(a.Str) == 0)
+		emptyB := (b.IsList && len(b.Elems) == 0) || (!b.IsList && len(b.Str) == 0)
+		if emptyA != emptyB {
+			return "nil-pointer"
+		}
+		return s.Elem.diff(a, b)
+	}
+	if !a.IsList || !b.IsList {
+		return "shape"
+	}
+	switch s.Kind {
+	case KList, KArray:
+		if len(a.Elems) != len(b.Elems) {
+			return "list-length"
+		}
+		for i := range a.Elems {
+			if d := s.Elem.diff(a.Elems[i], b.Elems[i]); d != "" {
+				return d
+			}
+		}
+	case KStruct:
+		for i, f := range s.Fields {
+			if i >= len(a.Elems) || i >= len(b.Elems) {
+				return "shape"
+			}
+			if d := f.diff(a.Elems[i], b.Elems[i]); d != "" {
+				return d
+			}
+		}
+		if len(a.Elems) != len(b.Elems) {
+			return "list-length"
+		}
+		if s.Tail != nil {
+			for i := len(s.Fields); i < len(a.Elems); i++ {
+				if d := s.Tail.diff(a.Elems[i], b.Elems[i]); d != "" {
+					return d
+				}
+			}
+		}
+	}
+	return "shape"
+}
